@@ -201,6 +201,13 @@ class Model:
             p = parent_of(p)
         return '/' + '/'.join(reversed(comps))
 
+    def reloc_name_taken(self):
+        iso_name, rr_name = self.rr_moved_names()
+        for p, e in self.t['iso'].items():
+            if p != '/' and parent_of(p) == '/' and (p == '/' + iso_name or (self.rr and e.get('rr') == rr_name)):
+                return True
+        return False
+
     def relocated_dirs(self):
         return [p for p, e in self.t['iso'].items() if e.get('reloc')]
 
@@ -267,8 +274,15 @@ class Model:
             # signatures of on-disc structures right behind the first character of the Rock Ridge name (parsers that sniff for
             # a structure at a fixed offset of the system use field see the name's characters there)
             rrn = rrn[0] + self.MAGIC[op['magic'] % len(self.MAGIC)] + rrn[1:]
+        isod = names.iso_dir(n, lvl, sz, lead, salt, cap) if isdir else None
+        if isdir and op.get('rrm'):
+            # a directory of the user's that has the default names of the Rock Ridge relocation directory (one of them or both)
+            if op['rrm'] in (1, 2):
+                isod = 'RR_MOVED'
+            if op['rrm'] in (1, 3):
+                rrn = 'rr_moved'
         return {
-            'iso': names.iso_dir(n, lvl, sz, lead, salt, cap) if isdir else names.iso_file(n, lvl, sz, lead, salt, 1, cap),
+            'iso': isod if isdir else names.iso_file(n, lvl, sz, lead, salt, 1, cap),
             'rr': rrn,
             'jol': names.joliet_name(n, sz, lead, salt),
             'udf': names.udf_name(n, op.get('usz', sz), lead, salt),
@@ -363,6 +377,8 @@ class Model:
         if not parents:
             raise Skip('no namespace available')
         reloc_here = 'iso' in parents and self.rr and self.level < 4 and (depth(parents['iso']) + 1) % 8 == 0
+        if reloc_here and not self.relocated_dirs() and self.reloc_name_taken():
+            raise Skip('the relocation directory cannot be created: its name is taken (refusal row add_directory/relocation-name-taken)')
         # relocated directories share one RR_MOVED, where the library renames the second of two equal identifiers:
         # names are reused there only on request (reloctwins profile)
         nm = self._new_names(op, True, None if (reloc_here and not op.get('twin')) else parents)
@@ -1166,8 +1182,19 @@ class BadCatalogue:
             ('add_hard_link/dup-new-udf', 'add_hard_link', True, self.link_dup_new_in('udf')),
             ('add_hard_link/dup-new-joliet', 'add_hard_link', True, self.link_dup_new_in('jol')),
             ('add_hard_link/dup-new-udf', 'add_hard_link', True, self.link_dup_new_in('udf')),
+            ('add_directory/relocation-name-taken', 'add_directory', True, self.add_dir_reloc_name_taken),
         ]
         return rows
+
+    def add_dir_reloc_name_taken(self, op):
+        m = self.m
+        if not (m.rr and m.level < 4) or m.relocated_dirs() or not m.reloc_name_taken():
+            raise Skip('needs a taken relocation directory name and no relocation directory')
+        c = sorted(p for p, e in m.t['iso'].items() if e['type'] == 'dir' and depth(p) == 7)
+        if not c:
+            raise Skip('no directory at depth 7')
+        nm = m._new_names(op, True)
+        return 'add_directory', {'iso_path': join(c[op.get('i', 0) % len(c)], nm['iso']), 'rr_name': nm['rr']}
 
     def link_old_is_dir(self, op):
         d = self.existing('iso', ('dir',), op)
@@ -1744,7 +1771,11 @@ def udf_norm(t):
 def _op_bad(self, op):
     cat = BadCatalogue(self)
     rows = cat.rows()
-    if op.get('wy') is not None:
+    if op.get('row') is not None:
+        # a row named outright (scenario profiles that build the history a particular refusal needs)
+        allrows = rows + cat.rows_late() + cat.rows_more()
+        name, meth, staged, builder = [r for r in allrows if r[0] == op['row']][0]
+    elif op.get('wy') is not None:
         extra = cat.rows_more()
         name, meth, staged, builder = extra[op['wy'] % len(extra)]
     elif op.get('wx') is not None:
